@@ -204,4 +204,9 @@ def rule_newline_guards(ctx):
     r.floor(3)
 
 
-RULES = [rule_first_dispatch, rule_ignored_whole_line, rule_no_strip, rule_raw_emit, rule_effects, rule_blank_lines_skip, rule_newline_guards]
+def rule_region_uncounted(ctx):
+    from . import c08
+    c08.rule_region_uncounted(ctx)
+
+
+RULES = [rule_first_dispatch, rule_ignored_whole_line, rule_no_strip, rule_raw_emit, rule_effects, rule_blank_lines_skip, rule_newline_guards, rule_region_uncounted]
